@@ -20,7 +20,9 @@ enumeration order cannot influence any result -/
 def orderInvariantFuncs : List (String × String) :=
   [ ("make_train_sets", "C02_train_disjoint, C02_materialise_eq: the training rows are re-ordered by the index list"),
     ("get_rows_from_dataframe", "C02_materialise_chunks: any order inside and between pieces"),
-    ("drop_missing_values_and_fill_spectra_dataframe", "set difference of column names, used for membership only (C10)") ]
+    ("drop_missing_values_and_fill_spectra_dataframe", "set difference of column names, used for membership only (C10)"),
+    ("_group_proteins", "C16_order_independent: the grouping is invariant under every enumeration of every `matches` set"),
+    ("read_fasta", "`next(iter(prots))` is applied to one-element sets only (C16_unique_iff_one_group); the order inside the '; '-joined value strings of shared_peptides does depend on the hash seed, but those strings reach no result file (picked_protein only tests key membership) and the C08 harness compares them as sets") ]
 
 /-- functions that read a clock for log messages only -/
 def clockFuncs : List String := ["output_start_message", "output_end_message", "make_timer", "elapsed", "main"]
